@@ -52,7 +52,7 @@ def cheb_nodal(coeffs_axis_len, x, kind):
     return M
 
 
-def make_solver(h, M, N, T0, basisM, basisN, nparticles, rescale=False):
+def make_solver(h, M, N, T0, basisM, basisN, nparticles, rescale=False, real_truncation=False):
     h.patch_numeric(BZ)
     h.patch_numeric(PM)
     if rescale:
@@ -75,17 +75,27 @@ def make_solver(h, M, N, T0, basisM, basisN, nparticles, rescale=False):
             msqVacuum=(lambda f, a=a, b=b: a + b * np.asarray(f.getField(0)) ** 2),
             totalDOFs=[12, 6][k], statistics="Fermion"))
     bs.offEqParticles = parts
-    bs.estimateTruncationError = lambda d: 0.0
+    if not real_truncation:
+        bs.estimateTruncationError = lambda d: 0.0
     bs.checkLinearization = lambda d=None: (np.zeros(nparticles), np.zeros(nparticles))
     return bs, grid, prof
 
 
-def h_deltas(h, M, N, T0, basisM, basisN, nparticles, rescale=False):
-    bs, grid, prof = make_solver(h, M, N, T0, basisM, basisN, nparticles, rescale)
+def h_deltas(h, M, N, T0, basisM, basisN, nparticles, rescale=False, real_truncation=False):
+    bs, grid, prof = make_solver(h, M, N, T0, basisM, basisN, nparticles, rescale, real_truncation)
     shape = (nparticles, M - 1, N - 1, N - 1)
     dF = h.reals("df", shape, -1, 1, strict=False)
-    res = bs.getDeltas(dF.copy())
+    handed = dF.copy()
+    res = bs.getDeltas(handed)
     D = res.Deltas
+    if real_truncation:
+        # the real truncation-error diagnostic runs before the moments are taken: it is a read-only
+        # estimate -- the deviation handed in (and returned in the results) is not rewritten by it
+        for idx in np.ndindex(*shape):
+            same = (handed[idx] is dF[idx]) or (isinstance(handed[idx], Sym) and isinstance(dF[idx], Sym)
+                                                 and handed[idx].t.eq(dF[idx].t)) \
+                or (not isinstance(handed[idx], Sym) and not isinstance(dF[idx], Sym) and handed[idx] == dF[idx])
+            h.prove(f"the deviation handed to getDeltas is left as it was {list(idx)}", Cond(b=bool(same)))
     # ---- independent oracle
     rz = -np.cos(np.arange(1, N) * np.pi / N)
     rp = -np.cos(np.arange(0, N - 1) * np.pi / (N - 1))
@@ -189,7 +199,10 @@ _DQ = [dict(M=3, N=3, T0=1.0, basisM="Cardinal", basisN="Cardinal", nparticles=1
        dict(M=3, N=5, T0=25.0, basisM="Chebyshev", basisN="Cardinal", nparticles=2),
        dict(M=3, N=3, T0=1.0, basisM="Chebyshev", basisN="Chebyshev", nparticles=2)]
 _DQ.append(dict(M=3, N=3, T0=0.6, basisM="Cardinal", basisN="Cardinal", nparticles=1, rescale=True))
-_DT = _DQ + [dict(M=4, N=7, T0=1.0, basisM=bm, basisN=bn, nparticles=1)
+_DQ.append(dict(M=3, N=3, T0=1.0, basisM="Chebyshev", basisN="Chebyshev", nparticles=1, real_truncation=True))
+_DQ.append(dict(M=3, N=3, T0=1.0, basisM="Cardinal", basisN="Chebyshev", nparticles=1, real_truncation=True))
+_DT = _DQ + [dict(M=3, N=3, T0=1.0, basisM=bm, basisN=bn, nparticles=1, real_truncation=True)
+             for bm, bn in (("Chebyshev", "Cardinal"), ("Cardinal", "Cardinal"))] + [dict(M=4, N=7, T0=1.0, basisM=bm, basisN=bn, nparticles=1)
              for bm in ("Cardinal", "Chebyshev") for bn in ("Cardinal", "Chebyshev")] + \
     [dict(M=5, N=5, T0=3.0, basisM="Chebyshev", basisN="Chebyshev", nparticles=2)]
 
